@@ -1,8 +1,8 @@
 (** Property C09: subcommand dispatch follows argv, and global arguments agree at every level.
-    This file contains only the pinned statements; proofs live in ParseProofs/{Globals,Dispatch}.v. *)
+    This file contains only the pinned statements; proofs live in ParseProofs/{Globals,Dispatch,Chain}.v. *)
 From ClapModel Require Import Base.Bytes Base.Machine Base.Utf8 Lex.OsStrExtModel.
 From ClapModel Require Import Parse.Cmd Parse.Build Parse.Valid Parse.Matcher Parse.Errors Parse.Validator Parse.Parser.
-From ClapModel Require Import ParseProofs.Globals ParseProofs.Dispatch.
+From ClapModel Require Import ParseProofs.Globals ParseProofs.Dispatch ParseProofs.Chain.
 From Coq Require Import ZArith.
 From RecordUpdate Require Import RecordSet.
 Import RecordSetNotations.
@@ -218,3 +218,145 @@ Theorem C09_stale_at_refuted :
   out_err (parse_top ex_stale [b1 112; [45; 65; 118]; [45; 66; 108; 120]]) = Some EUnknownArgument.
 Proof. exact stale_at_refuted. Qed.
 Print Assumptions C09_stale_at_refuted.
+
+(** ** whole-argv composition (ParseProofs/Chain.v) *)
+
+(** the token loop never touches the recorded subcommand: whatever [parse_loop] returns (end of
+    input, a selected subcommand, an external subcommand, the help subcommand, or an error), the
+    [mt_sub] of the state it hands back is the one it was started with — every command, token list,
+    loop state and parser state *)
+Theorem C09_loop_keeps_sub : forall c toks ls st,
+  holds (fun lr => mt_sub (mt (lr_st lr)) = mt_sub (mt st))
+        (fun st' => mt_sub (mt st') = mt_sub (mt st))
+        (parse_loop c toks ls st).
+Proof. exact loop_keeps_sub. Qed.
+Print Assumptions C09_loop_keeps_sub.
+
+(** class [prefix_ok c pre F]: [pre] is a list of items `--flag` / `--opt=v` / `--opt v` / `-abc`
+    of the level [c] (exact long keys, ASCII shorts of arguments without values, no token or value
+    that [c] reads as a subcommand); [F] is the fold of [react] it denotes.  On `pre ++ rest` the loop
+    IS [F] followed by the loop on [rest] in state ValuesDone, positional counter unchanged, `--` not
+    seen — any [rest], any counter, any start state outside a continued cluster *)
+Theorem C09_loop_prefix : forall c pre F, prefix_ok c pre F -> forall rest pos vaf st, fs_skip st = 0 ->
+  parse_loop c (pre ++ rest) (lsV pos vaf) st =
+  (do st' <- F st; parse_loop c rest (lsV pos (vaf || negb (is_nil pre))) st').
+Proof. exact loop_prefix. Qed.
+Print Assumptions C09_loop_prefix.
+
+(** the same without [F]: the loop on `pre ++ rest` is the loop on [pre] ALONE, continued on [rest]
+    from the state the prefix alone ends in *)
+Theorem C09_loop_prefix_split : forall c pre, opt_prefix c pre -> forall rest pos vaf st, fs_skip st = 0 ->
+  parse_loop c (pre ++ rest) (lsV pos vaf) st =
+  (do lr <- parse_loop c pre (lsV pos vaf) st;
+   match lr with
+   | LDone st' => parse_loop c rest (lsV pos (vaf || negb (is_nil pre))) st'
+   | other => ROk other
+   end).
+Proof. exact loop_prefix_split. Qed.
+Print Assumptions C09_loop_prefix_split.
+
+(** the loop reaches the selecting token ([sel]: a name or alias without inference, or a long
+    flag-subcommand `--sub`) in a state where the dispatch lemmas apply: the selected name, the
+    remaining tokens verbatim, the state the prefix produced *)
+Theorem C09_prefix_then_subcommand : forall c pre F tok n,
+  prefix_ok c pre F -> sel c tok n -> is_set s_args_negate_subs c = false ->
+  forall rest pos vaf st, fs_skip st = 0 ->
+  parse_loop c (pre ++ tok :: rest) (lsV pos vaf) st =
+  (do st' <- F st; ROk (LSub n false (vaf || negb (is_nil pre)) st' rest)).
+Proof. exact loop_prefix_sel. Qed.
+Print Assumptions C09_prefix_then_subcommand.
+
+(** … or the token that starts an external subcommand ([ext_tok]), which receives every remaining token *)
+Theorem C09_prefix_then_external : forall c pre F tok, prefix_ok c pre F -> ext_tok c tok ->
+  forall rest pos vaf st, fs_skip st = 0 ->
+  parse_loop c (pre ++ tok :: rest) (lsV pos vaf) st = (do st' <- F st; ROk (LExternal tok rest st')).
+Proof. exact loop_prefix_ext. Qed.
+Print Assumptions C09_prefix_then_external.
+
+(** level isolation, one level of [get_matches_with]: the level is computed from its own
+    definition, its own prefix and the child's run; the child's run inside [after_sub] (keep = false)
+    is [get_matches_with f sc rest ps_new] — the child's definition, the remaining tokens, a fresh state *)
+Theorem C09_level_isolation : forall c pre F tok n f,
+  prefix_ok c pre F -> sel c tok n -> is_set s_args_negate_subs c = false ->
+  forall rest st0, fs_skip st0 = 0 ->
+  get_matches_with (S f) c (pre ++ tok :: rest) st0 =
+  post c (do st' <- F st0; after_sub f c n false (negb (is_nil pre)) st' rest).
+Proof. exact level_step. Qed.
+Print Assumptions C09_level_isolation.
+
+(** level isolation on the entries: a successful level `pre ++ tok :: rest` ends in the state its own
+    prefix produces — the loop on [pre] ALONE, then [fill] = [resolve_pending], [add_env], [add_defaults]
+    against [c] — with the subcommand record set ([ssub]): nothing of [tok :: rest] or of the child
+    enters the entries, the pending buffer or the counters of the level *)
+Theorem C09_level_entries : forall c pre F tok n f rest st,
+  prefix_ok c pre F -> sel c tok n -> lvl_ok c ->
+  get_matches_with (S f) c (pre ++ tok :: rest) ps_new = ROk st ->
+  exists st' stf,
+    parse_loop c pre (lsV 1 false) ps_new = ROk (LDone st') /\
+    fill c st' = ROk stf /\
+    st = ssub (mt_sub (mt st)) stf.
+Proof. exact level_entries. Qed.
+Print Assumptions C09_level_entries.
+
+(** the chain theorem, trees and lines of ANY depth.  [line c toks names ext]: [toks] is
+    `pre_0 n_1 pre_1 … n_k pre_k`, every [pre_i] an option prefix of the level reached, every [n_i]
+    selecting a child of that level (levels do not ignore errors, arguments do not negate
+    subcommands), [names] the canonical names of the children selected; or the last element is the
+    name of an external subcommand and [ext] its arguments.  A successful parse reports exactly
+    [names], and an external subcommand holds exactly the remaining tokens *)
+Theorem C09_chain : forall c toks names ext, line c toks names ext ->
+  forall f st, get_matches_with f c toks ps_new = ROk st ->
+  chain (into_inner (mt st)) = names /\
+  match ext with
+  | Some vals => deepest (into_inner (mt st)) = [(ext_id, ext_marg vals)]
+  | None => True
+  end.
+Proof. exact chain_of_line. Qed.
+Print Assumptions C09_chain.
+
+(** the same with short flag-subcommands ([gline]; [line] is the special case, [C09_line_is_gline]):
+    a level may also be left through `-S` (the letter alone: the child starts fresh) or through the
+    FIRST letter of a longer cluster `-Syu` (class simple_flag_cluster: the level was not itself entered
+    through a cluster, so [flag_subcmd_at] is clean); the child entered that way re-reads the same
+    token with skip = 1 as flags of its own ([lprefix … true]) and goes on with its own prefix.
+    [start_ok]: nothing recorded yet, skip as announced *)
+Theorem C09_chain_short_flags : forall c b toks names ext, gline c b toks names ext ->
+  forall f st0 st, start_ok b st0 -> get_matches_with f c toks st0 = ROk st ->
+  chain (into_inner (mt st)) = names /\
+  match ext with
+  | Some vals => deepest (into_inner (mt st)) = [(ext_id, ext_marg vals)]
+  | None => True
+  end.
+Proof. exact chain_of_gline. Qed.
+Print Assumptions C09_chain_short_flags.
+
+Theorem C09_line_is_gline : forall c toks names ext, line c toks names ext -> gline c false toks names ext.
+Proof. exact line_gline. Qed.
+Print Assumptions C09_line_is_gline.
+
+(** the chain composed with the globals merge, for [_do_parse]: the chain reported after
+    [propagate_globals] is [names]; the global arguments of EVERY level of the line (the commands
+    [_build_subcommand] produced along [names], an external subcommand excluded) are among the merged
+    ids — the eagerly built tree [get_used_global_args] walks and the lazily built levels agree, and
+    the fuel of the eager build suffices because the parser did not run out of it; every merged id
+    that has an entry somewhere on the chain has ONE entry at every level of the result (same values,
+    same source), it is one of the parsed entries and of maximal source — an explicit occurrence at
+    any level beats the defaults of all levels *)
+Theorem C09_chain_globals : forall c0 toks names ext m',
+  gline (build_self c0) false toks names ext -> is_set s_ignore_errors (build_self c0) = false ->
+  do_parse c0 toks = OOk m' ->
+  exists m globals,
+    m' = fst (filled (S (matches_depth m)) globals m) /\
+    globals = used_global_args (S (matches_depth m)) (build_recursive (S (S (depth (build_self c0)))) c0) m /\
+    chain m = names /\ chain m' = names /\ length (levels m') = S (length names) /\
+    match ext with Some vals => deepest m = [(ext_id, ext_marg vals)] | None => True end /\
+    (forall lc a, In lc (lazy_cmds (build_self c0) (real_names names ext)) -> In a (c_args lc) -> a_global a = true ->
+       mem_id (a_id a) globals = true) /\
+    (forall g e0, mem_id g globals = true -> In (Some e0) (map (fm_get g) (levels m)) ->
+       exists e,
+         (forall lv, In lv (levels m') -> fm_get g lv = Some e) /\
+         In (Some e) (map (fm_get g) (levels m)) /\
+         mrank e0 <= mrank e /\
+         (m_source e0 = Some SCmdLine -> m_source e = Some SCmdLine)).
+Proof. exact do_parse_gline. Qed.
+Print Assumptions C09_chain_globals.
